@@ -1030,7 +1030,7 @@ class tensor:
         array([1, 3, 2, 4])
         """
         # Error checking
-        if np.any(np.array(W.shape) > np.array(self.shape)):
+        if W.ndims != self.ndims or np.any(np.array(W.shape) > np.array(self.shape)):
             assert False, "Mask cannot be bigger than the data tensor"
 
         # Extract locations of nonzeros in W
